@@ -474,6 +474,21 @@ def s_field(ex, e, st):
     return [(o, Select(ex.H(o, name), ex.rv(args[0])))]
 
 
+def s_attr(ex, e, st):
+    """attr(obj, 'type', 'BaseSection'): the attribute as Python reads it on an instance of that class - the
+    instance field, or the class-level default while the instance field is unset"""
+    o, args, _ = _one(ex, e, st)
+    name = args[1].args[1].args[0]
+    cname = args[2].args[1].args[0]
+    o = o.copy()
+    raw = Select(ex.H(o, name), ex.rv(args[0]))
+    ci = ex.prog.classes[cname]
+    dcls, dnode = ci.lookup_attr(name)
+    if dnode is None:
+        return [(o, raw)]
+    return [(o, Ite(Is('VUnset', raw), ex.class_attr_value(dnode, dcls), raw))]
+
+
 def s_canon(ex, e, st):
     o, args, _ = _one(ex, e, st)
     return [(o, VBool(And(Is('VStr', args[0]), App('canon_uuid', BOOL, Acc('sv', args[0])))))]
@@ -523,7 +538,7 @@ def s_is_ref(ex, e, st):
 
 bi.SPEC_BUILTINS.update({
     'item': s_item, 'llen': s_llen, 'old': s_old, 'field': s_field, 'canon_uuid': s_canon,
-    'uuid_ok': s_uuid_ok, 'is_ref': s_is_ref, 'anc': s_anc, 'owned': s_owned, 'depth': s_depth,
+    'uuid_ok': s_uuid_ok, 'is_ref': s_is_ref, 'anc': s_anc, 'owned': s_owned, 'depth': s_depth, 'attr': s_attr,
     'isSec': s_isclass('BaseSection'), 'isProp': s_isclass('BaseProperty'),
     'isDoc': s_isclass('BaseDocument'), 'isSL': s_isclass('SmartList'), 'isVErr': s_isclass('ValidationError'),
 })
